@@ -129,6 +129,69 @@ def close(a, b):
     return abs(a - b) <= 1e-9 * max(1.0, abs(a), abs(b))
 
 
+# ------------------------------------------------------------------------------ running error analysis
+def _rebuilders():
+    U = {"OP_NEG": lambda a: -a, "OP_EXP": ca.exp, "OP_LOG": ca.log, "OP_SQRT": ca.sqrt, "OP_SQ": lambda a: a * a, "OP_TWICE": lambda a: 2 * a,
+         "OP_SIN": ca.sin, "OP_COS": ca.cos, "OP_TAN": ca.tan, "OP_ASIN": ca.asin, "OP_ACOS": ca.acos, "OP_ATAN": ca.atan, "OP_FLOOR": ca.floor,
+         "OP_CEIL": ca.ceil, "OP_FABS": ca.fabs, "OP_SIGN": ca.sign, "OP_ERF": ca.erf, "OP_INV": lambda a: 1 / a, "OP_SINH": ca.sinh,
+         "OP_COSH": ca.cosh, "OP_TANH": ca.tanh, "OP_ASINH": ca.asinh, "OP_ACOSH": ca.acosh, "OP_ATANH": ca.atanh, "OP_NOT": ca.logic_not,
+         "OP_LOG1P": ca.log1p, "OP_EXPM1": ca.expm1}
+    B = {"OP_ADD": lambda a, b: a + b, "OP_SUB": lambda a, b: a - b, "OP_MUL": lambda a, b: a * b, "OP_DIV": lambda a, b: a / b,
+         "OP_POW": lambda a, b: a ** b, "OP_CONSTPOW": lambda a, b: a ** b, "OP_LT": lambda a, b: a < b, "OP_LE": lambda a, b: a <= b,
+         "OP_EQ": ca.eq, "OP_NE": ca.ne, "OP_AND": ca.logic_and, "OP_OR": ca.logic_or, "OP_FMOD": ca.fmod, "OP_REMAINDER": ca.remainder,
+         "OP_COPYSIGN": ca.copysign, "OP_IF_ELSE_ZERO": ca.if_else_zero if hasattr(ca, "if_else_zero") else (lambda c, v: ca.if_else(c, v, 0)),
+         "OP_FMIN": ca.fmin, "OP_FMAX": ca.fmax, "OP_ATAN2": ca.atan2, "OP_HYPOT": ca.hypot}
+    return ({getattr(ca, k): v for k, v in U.items() if hasattr(ca, k)}, {getattr(ca, k): v for k, v in B.items() if hasattr(ca, k)})
+
+
+_UNB, _BINB = _rebuilders()
+
+
+def rounding_error_bound(e, V, pt, cap=300):
+    """first-order bound on the error of evaluating the SX expression e at pt in double precision: every operation result r_k
+    is replaced by r_k (1 + d_k); the bound is sum_k |d e / d d_k| 2^-53 (running error analysis).  None if e contains an
+    operation this rebuild does not know.  Used only to classify a disagreement: a double-precision value that cannot be
+    trusted to the comparison tolerance says nothing about the translation."""
+    deltas, memo = [], {}
+
+    def rb(x):
+        h = x.element_hash()
+        if h in memo:
+            return memo[h]
+        if x.is_symbolic() or x.is_constant():
+            memo[h] = x
+            return x
+        if len(deltas) >= cap:
+            raise KeyError("too large")
+        op = x.op()
+        if x.n_dep() == 1 and op in _UNB:
+            r = _UNB[op](rb(x.dep(0)))
+        elif x.n_dep() == 2 and op in _BINB:
+            r = _BINB[op](rb(x.dep(0)), rb(x.dep(1)))
+        else:
+            raise KeyError(op)
+        d = ca.SX.sym("d%d" % len(deltas))
+        deltas.append(d)
+        r = r * (1 + d)
+        memo[h] = r
+        return r
+
+    try:
+        r = rb(e)
+        if not deltas:
+            return 0.0
+        D = ca.vertcat(*deltas)
+        J = ca.Function("J", list(V) + [D], [ca.jacobian(r, D)])
+        j = np.array(J(*list(pt), np.zeros(len(deltas)))).ravel()
+        if not np.isfinite(j).all():
+            return float("inf")
+        return float(np.abs(j).sum() * 2.0 ** -53)
+    except KeyError:
+        return None
+    except Exception:
+        return None
+
+
 # ------------------------------------------------------------------------------ CasADi -> SymPy
 UN = {
     "neg": lambda x: -x, "exp": ca.exp, "log": ca.log, "sqrt": ca.sqrt, "sq": lambda x: x ** 2, "twice": lambda x: 2 * x,
@@ -230,6 +293,9 @@ def c2s_agree(cts, e, V, names, pts):
             pert = [float(F(*[v * (1 + k) for v in pt])) for k in (1e-13, -1e-13)]
             if any(not close(pv, ref) for pv in pert):
                 continue  # ill-conditioned at this point in double precision (e.g. fmod by a tiny divisor)
+            reb = rounding_error_bound(e, V, pt)
+            if reb is not None and reb * 8 > 1e-9 * max(1.0, abs(ref)):
+                continue  # double evaluation of the source is itself not accurate to the tolerance here (cos of 7e10 + x)
             if discontinuity_margin(e, V, pt) < 1e-9:
                 continue
             if has_nonfinite_intermediate(e, V, pt):
@@ -572,6 +638,12 @@ def s2c_agree(stc, e, names, pts, f_dict, repl, cse=False, symbols=None):
                 continue  # agrees with the source evaluated in double precision
             if free and any(not close(float(F(*[subs[sp.Symbol(n)] * (1 + k) for n in free])), val) for k in (1e-13, -1e-13)):
                 continue  # ill-conditioned in double precision at this point (e.g. cos of 1e7)
+            if free:
+                # running error analysis of the translated expression (thorough tier, cos(y*(2x+y) + g(-64)**3 - tan(y)): the
+                # argument is 6.9e10 + O(1), its double value is uncertain by 1e-5 whatever the order of the additions)
+                reb = rounding_error_bound(res, [syms[n] for n in free], [subs[sp.Symbol(n)] for n in free])
+                if reb is not None and reb * 8 > 1e-9 * max(1.0, abs(val)):
+                    continue
             return "bad", {"point": {n: subs[sp.Symbol(n)] for n in free}, "sympy_value": ref, "casadi_value": val}, syms
     return ("ok" if n_ok else "nopoints"), None, syms
 
